@@ -2,6 +2,7 @@
 from __future__ import annotations
 
 import ast
+import re
 from typing import Dict, Iterable, List, Optional, Set, Tuple
 
 from engine.absint import Absint, Config
@@ -677,6 +678,20 @@ def none_arith_rule(rep: Report, prog: Program, PROP: str, RULE: str) -> None:
                         if st.has_guard(f"{a} is not None", True) or st.has_guard(f"{a} is None", False) or st.has_guard(a, True) or st.has_guard(f"not {a}", False) \
                                 or (Y == X and "set:" + X in st.events):
                             why = f"guard on self.{Y}" + ("" if Y == X else f" (paired: assigned only together with self.{X})")
+                        if not why and Y == X:
+                            # state-tag guard: `self.S == C` holds here, S starts out different from C, and every `self.S = C` sits in a block that also gives self.X a value
+                            for g, t in st.guards:
+                                m_ = re.match(r"^self\.(\w+) == (.+)$", g)
+                                if not (t and m_) or m_.group(1) == X:
+                                    continue
+                                S_, C_ = m_.group(1), m_.group(2)
+                                init_vals = [unparse(s_.value) for s_ in walk_no_nested(init.node) if isinstance(s_, (ast.Assign, ast.AnnAssign)) and s_.value is not None
+                                             and any(self_attr(t_) == S_ for t_ in targets_of(s_))]
+                                sets_c = [(f_, s_, b_) for f_ in ci.methods.values() if f_.name != "__init__" for b_ in blocks(f_.node) for s_ in b_
+                                          if isinstance(s_, (ast.Assign, ast.AnnAssign)) and s_.value is not None and unparse(s_.value) == C_ and any(self_attr(t_) == S_ for t_ in targets_of(s_))]
+                                if init_vals and C_ not in init_vals and sets_c and all(any(f2 is f_ and b2 is b_ and not is_none_store(s2) for f2, s2, b2 in stores[X]) for f_, s_, b_ in sets_c) \
+                                        and not any(is_none_store(s2) for _f2, s2, _b2 in stores[X]):
+                                    why = f"state guard self.{S_} == {C_}: that state is only entered together with an assignment of self.{X}, which is never reset"
                         for g, t in st.guards:
                             if t and Y != X and (g.startswith(f"{a} == ") or g.endswith(f" == {a}") or g.startswith(f"{a} == ") or f"{a} == " in g.split(" and ")[0]):
                                 why = f"equality guard on self.{Y} (paired: initialised to None and assigned only together with self.{X})"
